@@ -173,4 +173,6 @@ TimesLaw(tf, tl, out) ==
 \* R8
 CleanLaw(out) == IF ~out.ok THEN "Unreadable"
                  ELSE IF out.rs # <<>> \/ out.as # <<>> \/ ~out.minz \/ ~out.maxz THEN "Restart-NotClean" ELSE "ok"
+\* R8, flows mode: no remedy statistics - the file is absent or stays clean
+FlowsLaw(out) == IF ~out.exists THEN "ok" ELSE IF CleanLaw(out) # "ok" THEN "Flows-Touched" ELSE "ok"
 ================================================================================
